@@ -152,6 +152,27 @@ func IOPoint(kind string) {
 	}
 }
 
+// ProcStateCalls counts calls that reached one of the process-wide-state seams below.
+var ProcStateCalls atomic.Int64
+
+func procPoint(kind string) {
+	ProcStateCalls.Add(1)
+	if s := active.Load(); s != nil && s.managed() {
+		s.Point(kind, nil)
+	}
+}
+
+// Chdir, Setenv, Unsetenv and Umask replace the calls that change state shared by the whole process (working
+// directory, environment, file mode mask): each is a scheduling point, so that the explorer can run another
+// thread between such a change and the next one (usually the call that restores the old value).
+func Chdir(dir string) error { procPoint("chdir"); return os.Chdir(dir) }
+
+func Setenv(k, v string) error { procPoint("setenv"); return os.Setenv(k, v) }
+
+func Unsetenv(k string) error { procPoint("setenv"); return os.Unsetenv(k) }
+
+func Umask(m int) int { procPoint("umask"); return syscall.Umask(m) }
+
 // RandIntn, when set, answers math/rand Intn calls of the instrumented cmd package.
 var RandIntn func(n int) int
 
